@@ -178,23 +178,30 @@ MClose == /\ Ev.e = "close"
           /\ UNCHANGED <<mro, mrw, mfiles, mrobase, mdev, mfs, mpend, bad, badAt>>
           /\ Conform(D!Close)
 
-\* ---- environment between processes
+\* ---- environment: between processes, or while a TocCache object lives (idle / before a look-up).
+\*      rb = a process is alive and has a read-only directory: its content after the environment's
+\*      change is the new base of the never-written comparison
 X == <<Ev.dir, Ev.crc>>
+RoBase == mrobase' = IF Ev.rb THEN ToSet(Ev.robase) ELSE mrobase
 MCut == /\ Ev.e = "cut"
         /\ mfiles' = IF Ev.k < Ev.of THEN [mfiles EXCEPT ![X] = [st |-> "damaged", tab |-> <<>>]] ELSE mfiles
-        /\ UNCHANGED <<mro, mrw, mrobase, mdev, mfetched, mraised, mfs, mpend, mo, bad, badAt>>
+        /\ RoBase
+        /\ UNCHANGED <<mro, mrw, mdev, mfetched, mraised, mfs, mpend, mo, bad, badAt>>
         /\ IF Ev.k < Ev.of THEN Conform(D!Truncate(X, Ev.cut)) ELSE ConformCond(TRUE)
 MGarbage == /\ Ev.e = "garbage"
             /\ mfiles' = (X :> [st |-> "damaged", tab |-> <<>>]) @@ mfiles
-            /\ UNCHANGED <<mro, mrw, mrobase, mdev, mfetched, mraised, mfs, mpend, mo, bad, badAt>>
+            /\ RoBase
+            /\ UNCHANGED <<mro, mrw, mdev, mfetched, mraised, mfs, mpend, mo, bad, badAt>>
             /\ Conform(D!Corrupt(X, Ev.flavour))
 MRemove == /\ Ev.e = "remove"
            /\ mfiles' = [y \in DOMAIN mfiles \ {X} |-> mfiles[y]]
-           /\ UNCHANGED <<mro, mrw, mrobase, mdev, mfetched, mraised, mfs, mpend, mo, bad, badAt>>
+           /\ RoBase
+           /\ UNCHANGED <<mro, mrw, mdev, mfetched, mraised, mfs, mpend, mo, bad, badAt>>
            /\ Conform(D!Remove(X))
 MCopy == /\ Ev.e = "copy"
          /\ mfiles' = IF X \in DOMAIN mfiles THEN (<<Ev.to, Ev.crc>> :> mfiles[X]) @@ mfiles ELSE mfiles
-         /\ UNCHANGED <<mro, mrw, mrobase, mdev, mfetched, mraised, mfs, mpend, mo, bad, badAt>>
+         /\ RoBase
+         /\ UNCHANGED <<mro, mrw, mdev, mfetched, mraised, mfs, mpend, mo, bad, badAt>>
          /\ Conform(D!Copy(X, Ev.to))
 
 Step == /\ l <= Len(T.ev)
